@@ -31,6 +31,7 @@ var authItems = []string{
 	"S16-dual-usage-sign-cert-enc-key-not-held", "S17-lookalike-of-trusted-root", "S18-leaves-issued-by-v1-end-entity", "C13-lookalike-of-trusted-root", "C14-leaf-issued-by-v1-end-entity", "TS7-leaf-issued-by-v1-end-entity", "TC14-leaf-issued-by-v1-end-entity",
 	"S21-session-of-another-name-resumed", "S20-only-unknown-extended-key-usage", "C15-only-unknown-extended-key-usage",
 	"S22-name-constrained-ca-permits-name(allowed)", "S22-name-constrained-ca-permits-parent-domain(allowed)", "S22-name-constrained-ca-lookalike-suffix", "S22-name-constrained-ca-other-domain", "S22-name-constrained-ca-subdomain-only",
+	"S23-skx-signed-with-encryption-key", "S24-pinned-selfsigned-pair(allowed)", "S24-pinned-pair-other-name", "S24-pinned-pair-not-yet-valid", "S24-pinned-pair-expired",
 	"S19-wildcard-one-label(allowed)", "S19-wildcard-deeper-name", "S19-wildcard-parent-name", "TS19-wildcard-one-label(allowed)", "TS19-wildcard-deeper-name", "TS19-wildcard-parent-name",
 	"TS0-honest-server", "TS1-untrusted-root", "TS3-wrong-name", "TS10-rsa-key-not-held", "TS5-ecdhe-params-signed-by-other-key", "TS6-ecdhe-params-signature-over-other-randoms", "TS9-ecdhe-params-signature-garbage", "TS4-ecdsa-cert-for-rsa-suite",
 	"TC0-honest-client", "TC1-no-cert", "TC2-untrusted-ca", "TC3-cv-other-key", "TC4-cv-other-transcript", "TC5-cv-omitted", "TC5-cv-omitted-enc-only-cert", "TC3-cv-other-key-enc-only-cert", "TC12-certificate-message-omitted", "TC8-ifgiven-no-cert",
@@ -90,7 +91,8 @@ func drawImpostor(c *simkit.Choice, ent *simkit.Stream) impRun {
 		ir.scfg = sc
 		items := []string{"S0-honest-server", "S1-untrusted-ca", "S2-expired", "S2-not-yet-valid", "S2-client-clock-before", "S2-client-clock-after", "S2-one-expired", "S3-wrong-name", "S3-one-wrong-name", "S3-ip-literal-server-name",
 			"S4-rsa-sign-cert", "S4-p256-sign-cert", "S4-rsa-enc-cert", "S5-skx-other-key", "S6-skx-replayed-randoms", "S7-skx-other-enc-cert", "S8-skx-omitted", "S9-skx-malformed", "S10-no-enc-key", "S11-certs-swapped", "S12-one-cert", "S13-eku-clientauth-only", "S14-keyusage-sign-cert", "S14-keyusage-enc-cert", "V1-client-callback-rejects", "S15-untrusted-ca-ships-its-root", "S15-extra-unrelated-selfsigned", "S16-dual-usage-sign-cert-enc-key-not-held", "S17-lookalike-of-trusted-root", "S18-leaves-issued-by-v1-end-entity", "S19-wildcard-one-label(allowed)", "S19-wildcard-deeper-name", "S19-wildcard-parent-name", "S21-session-of-another-name-resumed", "S20-only-unknown-extended-key-usage",
-			"S22-name-constrained-ca-permits-name(allowed)", "S22-name-constrained-ca-permits-parent-domain(allowed)", "S22-name-constrained-ca-lookalike-suffix", "S22-name-constrained-ca-other-domain", "S22-name-constrained-ca-subdomain-only"}
+			"S22-name-constrained-ca-permits-name(allowed)", "S22-name-constrained-ca-permits-parent-domain(allowed)", "S22-name-constrained-ca-lookalike-suffix", "S22-name-constrained-ca-other-domain", "S22-name-constrained-ca-subdomain-only",
+			"S23-skx-signed-with-encryption-key", "S24-pinned-selfsigned-pair(allowed)", "S24-pinned-pair-other-name", "S24-pinned-pair-not-yet-valid", "S24-pinned-pair-expired"}
 		ir.Item = items[c.Choose(len(items), simkit.LFault)]
 		switch ir.Item {
 		case "S0-honest-server":
@@ -211,6 +213,27 @@ func drawImpostor(c *simkit.Choice, ent *simkit.Stream) impRun {
 			ir.ExtraRoot = ca
 			if ca == "ncok" || ca == "ncdot" {
 				ir.Expect = expComplete
+			}
+		case "S23-skx-signed-with-encryption-key":
+			// the impostor presents both genuine certificates and holds the encryption key
+			// only (the key a key-management centre escrows); it signs the ServerKeyExchange
+			// with that key. Possession of the signing key is what authenticates the server.
+			sc.Sign = ident("srv-sign", false)
+			sc.SKXKey = pki.D("srv-enc")
+		case "S24-pinned-selfsigned-pair(allowed)", "S24-pinned-pair-other-name", "S24-pinned-pair-not-yet-valid", "S24-pinned-pair-expired":
+			// the victim pins a self-signed pair (both certificates are in its root pool):
+			// good for the name and the period they state, and for nothing else
+			sc.Sign, sc.Enc = ident("srvself-sign", true), ident("srvself-enc", true)
+			ir.ExtraRoot = "srvself-sign,srvself-enc"
+			switch ir.Item {
+			case "S24-pinned-selfsigned-pair(allowed)":
+				ir.Expect = expComplete
+			case "S24-pinned-pair-other-name":
+				ir.VictimName = []string{"other.sim", "server2.sim", "xserver.sim"}[c.Choose(3, simkit.LFault)]
+			case "S24-pinned-pair-not-yet-valid":
+				ir.Skew = -11 * 365 * day
+			case "S24-pinned-pair-expired":
+				ir.Skew = 91 * 365 * day
 			}
 		case "S20-only-unknown-extended-key-usage":
 			// certificates whose extended key usage lists only a purpose nobody knows (a
@@ -494,7 +517,7 @@ func runAuthImpostor(c *simkit.Choice, r *simkit.Rec) {
 					vc.ServerName = ir.VictimName
 				}
 				if ir.ExtraRoot != "" {
-					vc.RootCAs = pki.Pool("caA", ir.ExtraRoot)
+					vc.RootCAs = pki.Pool(append([]string{"caA"}, strings.Split(ir.ExtraRoot, ",")...)...)
 				}
 				if ir.OtherNameFirst {
 					vc.ClientSessionCache = victimCache
